@@ -101,6 +101,7 @@ let invariants_ok s =
 
 let () =
   let mode = if Array.length Sys.argv > 1 then Sys.argv.(1) else "trace" in
+  let agg = Hashtbl.create 4096 and ncases = ref 0 and nbad = ref 0 and ncap = ref 0 and nsteps = ref 0 in
   (try while true do
     let line = input_line stdin in
     if String.trim line <> "" then begin
@@ -112,19 +113,34 @@ let () =
         if mode = "trace" then begin
           if until_exit_undone !s then (early := true; Printf.printf "#EARLY-EXIT %d\n" !n);
           if lifo_delay !s && not !lifo then (lifo := true; Printf.printf "#LIFO-DELAY %d\n" !n)
-        end else begin
+        end else if mode = "states" then begin
           let sg = signature !s in
           if not (Hashtbl.mem seen sg) then begin
             Hashtbl.add seen sg ();
             print_endline ((if invariants_ok !s then "S " else "BAD ") ^ sg)
+          end
+        end else begin
+          (* states-agg: the distinct states over ALL cases of the input, printed once at the end *)
+          let sg = signature !s in
+          if not (Hashtbl.mem agg sg) then begin
+            Hashtbl.add agg sg ();
+            if not (invariants_ok !s) then (incr nbad; print_endline ("BAD " ^ sg ^ " in " ^ line))
           end
         end;
         let (s', evs) = cstep funs stepms !s in
         if mode = "trace" then List.iter (fun e -> print_endline (show_event e)) evs;
         s := s'; incr n
       done;
-      if !n >= cap then print_endline "#CAP";
-      Printf.printf "#STEPS %d\n" !n;
-      print_endline "END"
+      incr ncases; nsteps := !nsteps + !n;
+      if mode = "states-agg" then (if !n >= cap then incr ncap)
+      else begin
+        if !n >= cap then print_endline "#CAP";
+        Printf.printf "#STEPS %d\n" !n;
+        print_endline "END"
+      end
     end
-  done with End_of_file -> ())
+  done with End_of_file -> ());
+  if mode = "states-agg" then begin
+    Hashtbl.iter (fun sg () -> print_endline ("S " ^ sg)) agg;
+    Printf.printf "#CASES %d\n#STATES %d\n#BAD %d\n#NOHALT %d\n#STEPS %d\n" !ncases (Hashtbl.length agg) !nbad !ncap !nsteps
+  end
